@@ -457,3 +457,19 @@ Definition callback_invoked (a : pa_action) : bool := match a with PaDeliver => 
 Definition requeued (a : pa_action) : bool :=
   match a with PaRetryTcp | PaRetryNoEdns | PaRequeueRcode => true | _ => false end.
 Definition next_conn_is_tcp (using_tcp : bool) : bool := using_tcp.
+
+(* What happens to the query after the decision, as far as its retry budget is concerned.
+   ares_requeue_query(.., inc_try_count = TRUE, ..) is used for SERVFAIL/NOTIMP/REFUSED only: it
+   increments try_count and ends the query (with the error recorded) when
+   try_count >= nservers * tries.  The truncation and the EDNS retries call
+   ares_append_requeue() directly: try_count is NOT touched, the query is always re-sent. *)
+Inductive fate := FDropped | FDelivered | FRequeued (try_count : Z) | FEnded.
+
+Definition after_answer (a : pa_action) (try_count max_tries : Z) (no_retries : bool) : fate :=
+  match a with
+  | PaDrop => FDropped
+  | PaDeliver => FDelivered
+  | PaRetryTcp | PaRetryNoEdns => FRequeued try_count
+  | PaRequeueRcode =>
+    if (try_count + 1 <? max_tries) && negb no_retries then FRequeued (try_count + 1) else FEnded
+  end.
